@@ -58,7 +58,7 @@ func genHSPath(t *rapid.T) HSPath {
 	c.Secure = rapid.Bool().Draw(t, "secure")
 	c.HandshakeTimeoutMs = rapid.SampledFrom([]int{0, 0, 30000, 60000, 3600000}).Draw(t, "hto")
 	c.CtxDeadlineMs = rapid.SampledFrom([]int{0, 0, 45000, 50000, 7200000}).Draw(t, "ctx")
-	c.Negative = rapid.SampledFrom([]string{"", "", "", "bad-ws-reply", "proxy-refusal", "bad-cert"}).Draw(t, "negative")
+	c.Negative = rapid.SampledFrom([]string{"", "", "", "bad-ws-reply", "bad-ext-reply", "proxy-refusal", "bad-cert"}).Draw(t, "negative")
 	c.Refusal = rapid.IntRange(0, len(refusals)-1).Draw(t, "refusal")
 	if c.Path == "upgrade" {
 		c.PreBuffered = rapid.SampledFrom([]int{0, 0, 5, 40}).Draw(t, "prebuf")
@@ -117,6 +117,8 @@ func (c HSPath) peerSpec() (PeerSpec, bool, *url.URL) {
 	switch c.Negative {
 	case "bad-ws-reply":
 		spec.BadWSReply = true
+	case "bad-ext-reply":
+		spec.BadExtReply = true
 	case "proxy-refusal":
 		if spec.ProxyKind == "http" || spec.ProxyKind == "https" {
 			spec.ProxyReply = refusals[c.Refusal%len(refusals)]
@@ -199,7 +201,7 @@ func checkC16(c HSPath, o *Obs) error {
 	}
 	expectFail := false
 	switch c.Negative {
-	case "bad-ws-reply":
+	case "bad-ws-reply", "bad-ext-reply":
 		expectFail = true
 	case "proxy-refusal":
 		expectFail = c.Path == "http-proxy" || c.Path == "https-proxy" || c.Path == "https-proxy-tlshook"
